@@ -1101,5 +1101,67 @@ mod verif_deflate_core {
         fast_tail_body::<3>(0);
     }
 
+    // ------------------------------------------------------------------
+    // K-fastcap : the real compress_fast on a CONCRETE 4-byte repeat at a concrete distance, with symbolic window
+    // bits, flags, dictionary size and flush mode: a match may be emitted only if the distance is within both the
+    // available history and the window declared for window_bits_max (C11), and if it is within both it IS used (C10
+    // "redundancy is exploited"). Concrete data keeps every hash/window index concrete.
+    // ------------------------------------------------------------------
+    fn fast_cap_body(dist: usize) {
+        let mut d = any_compressor!();
+        kani::assume(d.params.flags & TDEFL_FORCE_ALL_RAW_BLOCKS == 0);
+        let src: usize = 1000;
+        let pos0: usize = src + dist;
+        let pat = [b'A', b'B', b'C', b'D'];
+        let mut k = 0; while k < 4 { d.dict.b.dict[src + k] = pat[k]; k += 1; }
+        d.dict.b.dict[src + 4] = b'x'; // the earlier occurrence continues differently
+        let tri: u32 = (pat[0] as u32) | (pat[1] as u32) << 8 | (pat[2] as u32) << 16;
+        let hash = (tri ^ (tri >> (24 - (LZ_HASH_BITS - 8)))) & LEVEL1_HASH_SIZE_MASK;
+        d.dict.b.hash[hash as usize] = src as u16;
+        d.dict.lookahead_pos = pos0;
+        d.dict.lookahead_size = 0;
+        let size0: usize = kani::any();
+        kani::assume(size0 <= LZ_DICT_SIZE);
+        d.dict.size = size0;
+        d.params.flush = any_flush();
+        kani::assume(d.params.flush != TDEFLFlush::None);
+        d.params.src_pos = 0;
+        let wbm = d.params.window_bits_max;
+        let mut outb = [0u8; 8];
+        FS_N.store(0, RLX);
+        let ok;
+        {
+            let mut cb = CallbackOxide::new_callback_buf(&pat[..], &mut outb[..]);
+            ok = compress_fast(&mut d, &mut cb);
+        }
+        assert!(ok && d.dict.lookahead_size == 0 && d.lz.total_bytes == 4, "OBL:fastcap.all_four_bytes_tokenised [C02]");
+        let cap = 1usize << core::cmp::max(wbm, 8);
+        let ntok = 8 - d.lz.num_flags_left as usize;
+        let flagbyte = d.lz.codes[0] >> d.lz.num_flags_left;
+        let matched = flagbyte & 1 == 1;
+        if matched {
+            let len = FS_LOG[0].load(RLX) as usize + 3;
+            let got = (FS_LOG[1].load(RLX) as usize | (FS_LOG[2].load(RLX) as usize) << 8) + 1;
+            assert!(got == dist && len == 4 && ntok == 1, "OBL:fastcap.match_is_the_planted_repeat [C01 C10]");
+            assert!(dist <= size0, "OBL:fastcap.match_never_reaches_before_start_of_data [C10]");
+            assert!(dist <= cap, "OBL:fastcap.match_distance_within_the_window_declared_for_window_bits [C11]");
+        } else {
+            assert!(ntok == 4 && FS_LOG[0].load(RLX) == b'A' && FS_LOG[3].load(RLX) == b'D', "OBL:fastcap.otherwise_four_literals [C01 C10]");
+            assert!(dist > size0 || dist > cap || dist >= 65536, "OBL:fastcap.repeat_within_history_and_window_is_exploited [C10]");
+        }
+        kani::cover!(matched, "COV:fastcap.match_emitted");
+        kani::cover!(!matched && dist <= size0, "COV:fastcap.rejected_for_the_window_only");
+    }
+    #[kani::proof]
+    #[kani::unwind(40)]
+    #[kani::stub(LZOxide::write_code, model_write_code)]
+    #[kani::stub(flush_block, model_flush_block_noop)]
+    fn k_fast_cap_300() { fast_cap_body(300); }
+    #[kani::proof]
+    #[kani::unwind(40)]
+    #[kani::stub(LZOxide::write_code, model_write_code)]
+    #[kani::stub(flush_block, model_flush_block_noop)]
+    fn k_fast_cap_5000() { fast_cap_body(5000); }
+
     //@PLAYBACK@
 }
